@@ -6,6 +6,10 @@
  *                                               called directly (no self-test gate); "unsupported" if not built in
  *   ctr <tok>...              -> ok <out>...    see aes_main.ml for the tokens
  *
+ *   token J<pos> of a ctr script is NOT a library call: it writes stream->bytectr = pos (hex, multiple
+ *   of 16) right after an init; with pblk[15] still 0xff the next cipherblock is generated from the
+ *   fully re-encoded counter, so the object is a stream positioned at block pos/16.
+ *
  * Data buffers are malloc blocks of exactly their size (ASan build); S = in place, s = separate
  * buffers.  Built with -DDRV_WIPE and --wrap=malloc,--wrap=free the same lines print, instead of
  * data, one event  free:<key|ctr>:<non-zero bytes>:<raw key found>  per block the library hands
@@ -13,10 +17,17 @@
  */
 #include "drv_common.h"
 
+#include <assert.h>
+
 #include "cpusupport.h"
 #include "crypto_aes.h"
 #include "crypto_aes_aesni.h"
 #include "crypto_aesctr.h"
+#include "sysendian.h"
+
+/* White box: the definition of struct crypto_aesctr, exactly as the library's translation units
+ * see it (the file is meant to be #included; its static inline functions stay unused here). */
+#include "crypto_aesctr_shared.c"
 
 #define MAXKEYS 64
 
@@ -180,6 +191,9 @@ do_ctr(char ** tok, int n)
 			break;
 		case 'F':
 			crypto_aesctr_free(stream); stream = NULL;
+			break;
+		case 'J':
+			stream->bytectr = (uint64_t)strtoull(arg, NULL, 16);
 			break;
 		case 's': case 'S': {
 			size_t len; uint8_t * in = drv_unhex(arg, &len, 0);
